@@ -167,6 +167,7 @@ pub struct Outcome {
     pub fileck_runs: u64,
     pub multi_page_freelist: bool,
     pub churn_readers: u64,
+    pub exactness_checks: u64,
 }
 
 struct State<'c> {
@@ -176,6 +177,9 @@ struct State<'c> {
     committed: MBucket,
     prev_reach: std::collections::BTreeSet<u64>,
     prev_hwm: u64,
+    prev_flrun: std::collections::BTreeSet<u64>,
+    prev_len: u64,
+    no_reader_open: bool,
     o: Outcome,
 }
 
@@ -183,6 +187,24 @@ impl<'c> State<'c> {
     /// one transaction + independent measurement; Ok(false) = stop (violation recorded)
     fn step(&mut self, db: &DB, c: &Case, path: &std::path::Path, t: usize) -> Result<bool, String> {
         let ps = c.pagesize;
+        // with no reader open, a writer that begins now must find EVERY page that the newest header does
+        // not reach in its free set (no page is retained "just in case"), and nothing else
+        if self.no_reader_open && self.prev_hwm > 4 && !self.prev_reach.is_empty() {
+            let probe = db.tx(true).map_err(|e| e.to_string())?;
+            let free: std::collections::BTreeSet<u64> = probe.verif_tx_state().free.iter().cloned().collect();
+            drop(probe);
+            let expected: std::collections::BTreeSet<u64> = (2..self.prev_hwm).filter(|p| !self.prev_reach.contains(p) && !self.prev_flrun.contains(p)).collect();
+            self.o.exactness_checks += 1;
+            if free != expected {
+                let retained: Vec<u64> = expected.difference(&free).take(8).cloned().collect();
+                let extra: Vec<u64> = free.difference(&expected).take(8).cloned().collect();
+                self.o.violations.push((
+                    if extra.is_empty() { "space:unreachable-pages-not-free-although-no-reader-is-open".to_string() } else { "space:free-set-contains-pages-that-are-in-use".to_string() },
+                    format!("before transaction {} (no reader open): {} page(s) below the high-water mark {} are neither reachable nor allocatable (e.g. {:?}); {} allocatable page(s) are in use or beyond the mark (e.g. {:?})", t, expected.difference(&free).count(), self.prev_hwm, retained, free.difference(&expected).count(), extra),
+                ));
+                return Ok(false);
+            }
+        }
         let script = tx_script(&c.kind, &mut self.rng, t, &mut self.tag, ps);
         exec::exec_tx(&mut self.run, db, path, &script, t, &mut self.committed);
         if self.run.out.aborted {
@@ -214,6 +236,21 @@ impl<'c> State<'c> {
         let ph = self.prev_hwm;
         o.reuse += rep.reachable.difference(&self.prev_reach).filter(|p| **p < ph).count() as u64;
         self.prev_reach = rep.reachable.clone();
+        self.prev_flrun = rep.freelist_run.clone();
+        // the file itself: it may only get longer when the pages of this commit did not fit, and then by
+        // no more than the allocation step (8 MiB) plus one step of slack
+        let len = std::fs::metadata(path).map(|md| md.len()).unwrap_or(0);
+        if self.prev_len > 0 {
+            if len > self.prev_len && m.num_pages * ps <= self.prev_len {
+                o.violations.push(("space:file-extended-without-need".into(), format!("transaction {}: the file grew from {} to {} bytes although the {} pages in use fit into the old length", t, self.prev_len, len, m.num_pages)));
+                return Ok(false);
+            }
+            if len > (m.num_pages * ps).max(self.prev_len) + (16 << 20) + ps {
+                o.violations.push(("space:file-much-longer-than-its-pages".into(), format!("transaction {}: file length {} for {} pages of {} bytes (previous length {})", t, len, m.num_pages, ps, self.prev_len)));
+                return Ok(false);
+            }
+        }
+        self.prev_len = len;
         self.prev_hwm = m.num_pages;
         o.hwm.push(m.num_pages);
         Ok(true)
@@ -241,6 +278,9 @@ pub fn run_case(c: &Case, path: &std::path::Path) -> Outcome {
         committed: MBucket::default(),
         prev_reach: Default::default(),
         prev_hwm: 4,
+        prev_flrun: Default::default(),
+        prev_len: 0,
+        no_reader_open: false,
         o: Outcome {
             hwm: vec![],
             max_live: 0,
@@ -251,6 +291,7 @@ pub fn run_case(c: &Case, path: &std::path::Path) -> Outcome {
             fileck_runs: 0,
             multi_page_freelist: false,
             churn_readers: 0,
+            exactness_checks: 0,
         },
     };
     let r = util::catch(|| -> Result<(), String> {
@@ -360,7 +401,10 @@ pub fn run_case(c: &Case, path: &std::path::Path) -> Outcome {
                 crate::c03::forbid_grow(false);
                 continue;
             }
-            if !st.step(&db, c, path, t)? {
+            st.no_reader_open = true;
+            let go = st.step(&db, c, path, t)?;
+            st.no_reader_open = false;
+            if !go {
                 return Ok(());
             }
             t += 1;
@@ -586,6 +630,7 @@ pub fn run(ctx: &Ctx) -> Shard {
             "transactions": o.hwm.len(), "max_live_pages_L": o.max_live, "max_pages_per_commit_D": o.max_delta, "hwm_series_downsampled": series}));
         shard.count("transactions", o.hwm.len() as u64);
         shard.count("fileck_conservation_checks", o.fileck_runs);
+        shard.count("writer_begins_whose_free_set_was_compared_with_the_unreachable_pages", o.exactness_checks);
         shard.count("pages_allocated_below_previous_hwm(reuse)", o.reuse);
         shard.count("max_hwm", 0);
         if o.churn_readers > 0 {
